@@ -67,6 +67,12 @@ fn mk_c18() -> Vec<Box<dyn Monitor>> {
 fn mk_c19() -> Vec<Box<dyn Monitor>> {
     vec![Box::new(mon::c19::C19)]
 }
+fn mk_c04() -> Vec<Box<dyn Monitor>> {
+    vec![Box::new(mon::byz::C04::new())]
+}
+fn mk_c15() -> Vec<Box<dyn Monitor>> {
+    vec![Box::new(mon::byz::C15::new())]
+}
 fn mk_c06() -> Vec<Box<dyn Monitor>> {
     vec![Box::new(mon::swaps::C06)]
 }
@@ -228,6 +234,28 @@ fn specs() -> Vec<CheckSpec> {
         level: "exploration",
         rule: "an admin actor calls every initialiser and setter (fee rates, protocol fee rates, fee tiers incl. spacing 0, adaptive fee tiers and pool constants near every validity boundary, delegated-authority and preset-constant paths, config extension and badge authorities) with boundary-biased arbitrary arguments, and a pool creator offers fabricated mints (plain SPL; Token-2022 with 0-3 extensions drawn from all known type numbers, account-only types and unknown numbers; freeze authority or not; truncated TLV records; badge issued / lamports parked at the badge address / none) to initialize_pool, initialize_pool_v2, initialize_pool_with_adaptive_fee and initialize_reward_v2 with in- and out-of-bound prices and reversed mint order, interleaved with LPs and traders that push prices to the protocol bounds; after every landed transaction every program-owned Whirlpool, FeeTier, AdaptiveFeeTier, Oracle and Config account is checked against the bounds restated independently, and pool/reward creation must agree with an admission predicate written from the statement; a case is one (instruction, outcome, error code) or (instruction, mint description, outcome) tuple",
         quick_runs: 400,
+        thorough_secs: 600,
+        assumptions: COMMON_ASSUMPTIONS,
+        extra: None,
+    },
+    CheckSpec {
+        id: "C04",
+        profile: Profile::Byz,
+        mk: mk_c04,
+        level: "fault_enumeration",
+        rule: "worlds with 2-3 pools (static and adaptive-fee), rewards, admin / creator / reward-authority / life-cycle LP / router actors, so that histories contain every privileged instruction kind; the Byzantine-client fault replays each successful privileged instruction on forks of its pre-state (where it is known to succeed as is) with one mutation: (a) the authority slot replaced by a fresh attacker key that signs, (b) the right key with the signer flag cleared (when it signs nowhere else), and for position / bundle authorities (c) the attacker as delegate of the position token account with delegated amount 0, 1, 2 (1 may succeed, 0 and 2 must not) and (d) the attacker as owner of an empty token account of the position mint; every mutation except delegate(1) must be rejected; the matrix is reported cell by cell (probes `cell: instruction / slot / mutation`); a case is one (instruction, slot, mutation) cell",
+        quick_runs: 300,
+        thorough_secs: 600,
+        assumptions: COMMON_ASSUMPTIONS,
+        extra: None,
+    },
+    CheckSpec {
+        id: "C15",
+        profile: Profile::Byz,
+        mk: mk_c15,
+        level: "fault_enumeration",
+        rule: "same worlds as C04; each successful fund-moving instruction (swap, swap_v2, two-hop x2, increase/decrease x4, by-token-amounts, reposition, collect fees / reward / protocol fees x6, update-fees, set-reward-emissions x2, initialise-reward x2) is replayed on forks of its pre-state with one account slot at a time substituted by a well-formed account of the same type that belongs elsewhere: another pool, a vault / token account / mint of another mint, another (non-vault) token account of the same mint in a vault slot, a tick array or position or oracle of another pool, another position of the same pool, another program (incl. the other token program), the same pool for both two-hop legs; slots where another account is legitimately acceptable (any token account of the right mint as source/destination, same-pool arrays in swaps, same-pool positions in update-fees) are excluded; every substitution must be rejected; the matrix is reported cell by cell; a case is one (instruction, slot, substitute kind) cell",
+        quick_runs: 300,
         thorough_secs: 600,
         assumptions: COMMON_ASSUMPTIONS,
         extra: None,
